@@ -14,9 +14,11 @@ where in {k, k+1, -1} and the parameter variants), up to the tier's depth.
 Oracle (all of it from an independent reading of the AST -- own walk, tuple
 paths, own candidate enumeration, marker tokens; see progen_c19.Reading):
 
- listing    sites U refusals == independently enumerated candidates, disjoint,
-            no duplicates, every reason a non-empty string, cursors of the
-            right kind owned by the program that was listed.
+ listing    every independently enumerated candidate is a site or a refusal
+            (a listing wider than the documented shape is recorded, not judged),
+            the two are disjoint, no duplicates, every reason a non-empty string,
+            cursors of the right kind, owned by the program that was listed and
+            resolving to the node the own walk finds there.
  where      where=j (j<k) / where=sites[j] / where=None returns (any exception is
             judged: k sites were listed); every reported edit lies at (or under)
             a selected site, every selected site is covered by an edit;
@@ -296,10 +298,12 @@ class Explorer:
                          f'--- program ---\n{st.func.format()}')
                 ok = False
             if extra:
-                self.bad('listing', cfg.name, 'listed-non-candidate', st.hist,
-                         f'listed but not a candidate by the documented shape: {[show(k) for k in extra]}\n'
-                         f'--- program ---\n{st.func.format()}')
-                ok = False
+                # wider than the documented shape: the statement only asks that every considered
+                # point be accounted for, so this is recorded, not judged
+                r.count('listed_beyond_documented_shape')
+                note = f'note: {cfg.name} lists a point outside the documented candidate shape: {show(extra[0])[:80]}'
+                if not any(n.startswith(note[:50]) for n in r.notes) and len(r.notes) < 20:
+                    r.notes.append(note)
         else:
             r.count('inconclusive')
             r.outcomes['listing:scope-unreadable'] += 1
